@@ -7,7 +7,9 @@ import (
 	"encoding/binary"
 	"encoding/hex"
 	"fmt"
+	"os"
 	"runtime"
+	"runtime/debug"
 	"sort"
 	"strings"
 	"sync"
@@ -45,6 +47,13 @@ import (
 // reply entry for it carries TOPIC/GROUP/CLUSTER_AUTHORIZATION_FAILED, and no record bytes
 // are returned for it. Metadata needs no permission, but it must not create a topic that
 // alice could not have created through any request she is authorized for.
+//
+// Requests naming several resources: Metadata with every ordered list of 2 (thorough: 3)
+// topic names over {t, s, u, n} (existing / non-existent permitted, existing / non-existent
+// forbidden), and pairs in both orders for every other request type that takes a list
+// (see c24Requests). Each named resource is judged on its own, so a permission decision
+// that leaks from one list element to another shows up as a change in (or a non-error
+// reply entry for) the forbidden element.
 
 const (
 	c24Alice = "alice"
@@ -54,7 +63,14 @@ const (
 	c24N     = "n" // topic that never exists and alice never has rights on
 	c24C     = "c" // name used by CreateTopics
 	c24G     = "g" // group the permission atoms talk about (exists or not)
+	c24S     = "s" // second topic covered by the same atoms as t (produce:t / fetch:t grant t AND s); never exists initially
+	c24H     = "h" // group that never exists and alice never has rights on
 )
+
+// c24TopicAlphabet: the names multi-topic requests are built from. In a world where t
+// exists they are: existing allowed (t), non-existent allowed (s), existing forbidden (u),
+// non-existent forbidden (n) - "allowed" as far as alice's permission set of the world goes.
+var c24TopicAlphabet = []string{c24T, c24S, c24U, c24N}
 
 var c24Atoms = []string{"produce:t", "fetch:t", "group_write:g", "group_read:g", "admin"}
 
@@ -107,8 +123,10 @@ func (w c24WorldCfg) aclConfig() acl.Config {
 		switch a {
 		case "produce:t":
 			rules = append(rules, acl.Rule{Action: acl.ActionProduce, Resource: acl.ResourceTopic, Name: c24T})
+			rules = append(rules, acl.Rule{Action: acl.ActionProduce, Resource: acl.ResourceTopic, Name: c24S})
 		case "fetch:t":
 			rules = append(rules, acl.Rule{Action: acl.ActionFetch, Resource: acl.ResourceTopic, Name: c24T})
+			rules = append(rules, acl.Rule{Action: acl.ActionFetch, Resource: acl.ResourceTopic, Name: c24S})
 		case "group_write:g":
 			rules = append(rules, acl.Rule{Action: acl.ActionGroupWrite, Resource: acl.ResourceGroup, Name: c24G})
 		case "group_read:g":
@@ -146,24 +164,28 @@ type c24ReqSpec struct {
 }
 
 func c24TopicNeeds(atom func(topic string) string, topics ...string) func(*c24World) []c24Need {
-	return func(*c24World) []c24Need {
+	return func(w *c24World) []c24Need {
 		var out []c24Need
 		for _, t := range topics {
-			out = append(out, c24Need{Kind: "topic", Name: t, Atom: atom(t)})
+			a := atom(t)
+			if a == "" && w.cfg.WildFetch && t != c24U && atom(c24T) == "fetch:t" {
+				a = "fetch:t" // the wildcard fetch grant covers every topic but u
+			}
+			out = append(out, c24Need{Kind: "topic", Name: t, Atom: a})
 		}
 		return out
 	}
 }
 
 func c24ProduceAtom(t string) string {
-	if t == c24T {
+	if t == c24T || t == c24S {
 		return "produce:t"
 	}
 	return ""
 }
 
 func c24FetchAtom(t string) string {
-	if t == c24T {
+	if t == c24T || t == c24S {
 		return "fetch:t"
 	}
 	return ""
@@ -300,9 +322,9 @@ func c24MetadataNeeds(topics ...string) func(*c24World) []c24Need {
 				atom = "fetch:t" // the wildcard fetch grant covers every topic but u
 			case w.cfg.has("admin"):
 				atom = "admin"
-			case tn == c24T && w.cfg.has("produce:t"):
+			case (tn == c24T || tn == c24S) && w.cfg.has("produce:t"):
 				atom = "produce:t"
-			case tn == c24T && w.cfg.has("fetch:t"):
+			case (tn == c24T || tn == c24S) && w.cfg.has("fetch:t"):
 				atom = "fetch:t"
 			}
 			out = append(out, c24Need{Kind: "create-topic", Name: tn, Atom: atom})
@@ -311,7 +333,9 @@ func c24MetadataNeeds(topics ...string) func(*c24World) []c24Need {
 	}
 }
 
-func c24Requests() []c24ReqSpec {
+// c24BaseRequests: every request type once (plus the first mixed lists); the indexes of
+// these variants are referenced by stored replays, new variants are appended after them.
+func c24BaseRequests() []c24ReqSpec {
 	return []c24ReqSpec{
 		{"ApiVersions", 0, func(*c24World) kmsg.Request { return kmsg.NewPtrApiVersionsRequest() }, c24NoNeed},
 		{"Metadata(all)", 8, func(*c24World) kmsg.Request { return c24MetadataReq() }, c24NoNeed},
@@ -434,6 +458,224 @@ func c24Requests() []c24ReqSpec {
 		{"ListOffsets[t]earliest", 1, func(*c24World) kmsg.Request { return c24ListOffsetsReq(-2, c24T) }, c24TopicNeeds(c24FetchAtom, c24T)},
 		{"ListOffsets[t,u]earliest", 1, func(*c24World) kmsg.Request { return c24ListOffsetsReq(-2, c24T, c24U) }, c24TopicNeeds(c24FetchAtom, c24T, c24U)},
 	}
+}
+
+// c24Lists: every ordered list of length k over the topic-name alphabet (repeated names
+// included), simplest first.
+func c24Lists(k int) [][]string {
+	out := [][]string{nil}
+	for i := 0; i < k; i++ {
+		var next [][]string
+		for _, l := range out {
+			for _, a := range c24TopicAlphabet {
+				next = append(next, append(append([]string(nil), l...), a))
+			}
+		}
+		out = next
+	}
+	return out
+}
+
+// c24ThoroughOnly: Metadata requests naming three topics are enumerated in the thorough tier only.
+func c24ThoroughOnly(s c24ReqSpec) bool {
+	return strings.HasPrefix(s.Name, "Metadata[") && strings.Count(s.Name, ",") >= 2
+}
+
+func c24OffsetCommitReq(w *c24World, topics ...string) kmsg.Request {
+	r := kmsg.NewPtrOffsetCommitRequest()
+	r.Group, r.MemberID, r.Generation = c24G, w.member, w.generation
+	for _, tn := range topics {
+		t := kmsg.NewOffsetCommitRequestTopic()
+		t.Topic = tn
+		p := kmsg.NewOffsetCommitRequestTopicPartition()
+		p.Partition, p.Offset = 0, 7
+		t.Partitions = append(t.Partitions, p)
+		r.Topics = append(r.Topics, t)
+	}
+	return r
+}
+
+func c24OffsetForLeaderEpochReq(topics ...string) kmsg.Request {
+	r := kmsg.NewPtrOffsetForLeaderEpochRequest()
+	r.ReplicaID = -1
+	for _, tn := range topics {
+		t := kmsg.NewOffsetForLeaderEpochRequestTopic()
+		t.Topic = tn
+		p := kmsg.NewOffsetForLeaderEpochRequestTopicPartition()
+		p.Partition = 0
+		t.Partitions = append(t.Partitions, p)
+		r.Topics = append(r.Topics, t)
+	}
+	return r
+}
+
+// c24DescribeConfigsReq: resources are topic names, "" stands for the broker resource.
+func c24DescribeConfigsReq(resources ...string) kmsg.Request {
+	r := kmsg.NewPtrDescribeConfigsRequest()
+	for _, name := range resources {
+		res := kmsg.NewDescribeConfigsRequestResource()
+		if name == "" {
+			res.ResourceType, res.ResourceName = kmsg.ConfigResourceTypeBroker, "1"
+		} else {
+			res.ResourceType, res.ResourceName = kmsg.ConfigResourceTypeTopic, name
+		}
+		r.Resources = append(r.Resources, res)
+	}
+	return r
+}
+
+func c24DescribeConfigsNeeds(resources ...string) func(*c24World) []c24Need {
+	return func(*c24World) []c24Need {
+		var out []c24Need
+		for _, name := range resources {
+			if name == "" {
+				out = append(out, c24Need{Kind: "cluster", Name: "cluster", Atom: "admin"})
+			} else {
+				out = append(out, c24Need{Kind: "topic", Name: name, Atom: c24FetchAtom(name)})
+			}
+		}
+		return out
+	}
+}
+
+func c24GroupsNeeds(atom func(g string) string, groups ...string) func(*c24World) []c24Need {
+	return func(*c24World) []c24Need {
+		var out []c24Need
+		for _, g := range groups {
+			out = append(out, c24Need{Kind: "group", Name: g, Atom: atom(g)})
+		}
+		return out
+	}
+}
+
+func c24GroupReadAtom(g string) string {
+	if g == c24G {
+		return "group_read:g"
+	}
+	return ""
+}
+
+// c24Requests = the base variants followed by the requests that name SEVERAL resources, so
+// that a decision taken for one list element can be seen leaking to another one:
+//   - Metadata: every ordered list of 2 (thorough: also 3) names over {t, s, u, n};
+//   - the other handlers that decide per list element (Produce, Fetch, DescribeConfigs,
+//     DescribeGroups, DeleteGroups): allowed-before-forbidden and forbidden-before-allowed,
+//     with an existing (u) and a non-existent (n) forbidden topic;
+//   - the handlers that decide once for the whole list (ListOffsets, OffsetForLeaderEpoch: every
+//     topic; OffsetCommit/OffsetFetch: the group; CreateTopics, DeleteTopics, AlterConfigs,
+//     CreatePartitions: cluster admin): one or two lists of two.
+func c24Requests() []c24ReqSpec {
+	c24SpecsOnce.Do(func() { c24Specs = c24BuildRequests() })
+	return c24Specs
+}
+
+var (
+	c24SpecsOnce sync.Once
+	c24Specs     []c24ReqSpec // read-only after construction: the builders only read their world argument
+)
+
+func c24BuildRequests() []c24ReqSpec {
+	out := c24BaseRequests()
+	add := func(name string, ver int16, build func(w *c24World) kmsg.Request, needs func(w *c24World) []c24Need) {
+		out = append(out, c24ReqSpec{name, ver, build, needs})
+	}
+	name := func(api string, l []string, suffix string) string {
+		return api + "[" + strings.Join(l, ",") + "]" + suffix
+	}
+	for _, l := range c24Lists(2) {
+		l := l
+		add(name("Metadata", l, ""), 8, func(*c24World) kmsg.Request { return c24MetadataReq(l...) }, c24MetadataNeeds(l...))
+	}
+	for _, l := range [][]string{{c24U, c24T}, {c24T, c24N}, {c24N, c24T}} {
+		l := l
+		add(name("Produce", l, "acks=1"), 7, func(w *c24World) kmsg.Request { return c24ProduceReq(1, w.tag(), l...) }, c24TopicNeeds(c24ProduceAtom, l...))
+	}
+	for _, l := range [][]string{{c24U, c24T}, {c24T, c24N}, {c24N, c24T}} {
+		l := l
+		add(name("Fetch", l, ""), 11, func(*c24World) kmsg.Request { return c24FetchReq(l...) }, c24TopicNeeds(c24FetchAtom, l...))
+	}
+	add("ListOffsets[u,t]earliest", 1, func(*c24World) kmsg.Request { return c24ListOffsetsReq(-2, c24U, c24T) }, c24TopicNeeds(c24FetchAtom, c24U, c24T))
+	for _, l := range [][]string{{c24T, c24U}, {c24U, c24T}} {
+		l := l
+		add(name("OffsetForLeaderEpoch", l, ""), 3, func(*c24World) kmsg.Request { return c24OffsetForLeaderEpochReq(l...) }, c24TopicNeeds(c24FetchAtom, l...))
+	}
+	for _, l := range [][]string{{c24T, c24U}, {c24U, c24T}, {"", c24U}, {c24T, ""}} {
+		l := l
+		shown := make([]string, len(l))
+		for i, x := range l {
+			shown[i] = "topic " + x
+			if x == "" {
+				shown[i] = "broker"
+			}
+		}
+		add(name("DescribeConfigs", shown, ""), 4, func(*c24World) kmsg.Request { return c24DescribeConfigsReq(l...) }, c24DescribeConfigsNeeds(l...))
+	}
+	for _, l := range [][]string{{c24G, c24H}, {c24H, c24G}} {
+		l := l
+		add(name("DescribeGroups", l, ""), 5, func(*c24World) kmsg.Request {
+			r := kmsg.NewPtrDescribeGroupsRequest()
+			r.Groups = append([]string(nil), l...)
+			return r
+		}, c24GroupsNeeds(c24GroupReadAtom, l...))
+	}
+	add("DeleteGroups[h,g]", 1, func(*c24World) kmsg.Request {
+		r := kmsg.NewPtrDeleteGroupsRequest()
+		r.Groups = []string{c24H, c24G}
+		return r
+	}, c24GroupsNeeds(func(string) string { return "" }, c24H, c24G)) // group_admin: not in the alphabet
+	add("OffsetCommit[g][t,u]", 3, func(w *c24World) kmsg.Request { return c24OffsetCommitReq(w, c24T, c24U) }, c24GroupNeed("group_write:g"))
+	add("OffsetFetch[g][t,u]", 5, func(*c24World) kmsg.Request {
+		r := kmsg.NewPtrOffsetFetchRequest()
+		r.Group = c24G
+		for _, tn := range []string{c24T, c24U} {
+			t := kmsg.NewOffsetFetchRequestTopic()
+			t.Topic = tn
+			t.Partitions = []int32{0}
+			r.Topics = append(r.Topics, t)
+		}
+		return r
+	}, c24GroupNeed("group_read:g"))
+	add("CreateTopics[c,t]", 2, func(*c24World) kmsg.Request {
+		r := kmsg.NewPtrCreateTopicsRequest()
+		for _, tn := range []string{c24C, c24T} {
+			t := kmsg.NewCreateTopicsRequestTopic()
+			t.Topic, t.NumPartitions, t.ReplicationFactor = tn, 1, 1
+			r.Topics = append(r.Topics, t)
+		}
+		return r
+	}, c24AdminNeed)
+	add("DeleteTopics[n,t]", 2, func(*c24World) kmsg.Request {
+		r := kmsg.NewPtrDeleteTopicsRequest()
+		r.TopicNames = []string{c24N, c24T}
+		return r
+	}, c24AdminNeed)
+	add("AlterConfigs[t,u]", 1, func(*c24World) kmsg.Request {
+		r := kmsg.NewPtrAlterConfigsRequest()
+		for _, tn := range []string{c24T, c24U} {
+			res := kmsg.NewAlterConfigsRequestResource()
+			res.ResourceType, res.ResourceName = kmsg.ConfigResourceTypeTopic, tn
+			c := kmsg.NewAlterConfigsRequestResourceConfig()
+			c.Name, c.Value = "retention.ms", kmsg.StringPtr("1234")
+			res.Configs = append(res.Configs, c)
+			r.Resources = append(r.Resources, res)
+		}
+		return r
+	}, c24AdminNeed)
+	add("CreatePartitions[t,u]", 1, func(*c24World) kmsg.Request {
+		r := kmsg.NewPtrCreatePartitionsRequest()
+		for _, tn := range []string{c24T, c24U} {
+			t := kmsg.NewCreatePartitionsRequestTopic()
+			t.Topic, t.Count = tn, 3
+			r.Topics = append(r.Topics, t)
+		}
+		return r
+	}, c24AdminNeed)
+	// thorough tier only (see Enabled), kept last so that the indexes above are the same in both tiers
+	for _, l := range c24Lists(3) {
+		l := l
+		add(name("Metadata", l, ""), 8, func(*c24World) kmsg.Request { return c24MetadataReq(l...) }, c24MetadataNeeds(l...))
+	}
+	return out
 }
 
 func c24JoinReq(member string) *kmsg.JoinGroupRequest {
@@ -580,9 +822,12 @@ func c24NewWorld(cfg c24WorldCfg, stats *c24Stats) *c24World {
 func (w *c24World) Close() { w.h.coordinator.Stop(); synctest.Wait() }
 
 func (w *c24World) Enabled() []int {
-	out := make([]int, len(w.specs))
-	for i := range out {
-		out[i] = i
+	var out []int
+	for i, s := range w.specs {
+		if c24ThoroughOnly(s) && !vh.Thorough() {
+			continue
+		}
+		out = append(out, i)
 	}
 	return out
 }
@@ -876,6 +1121,10 @@ func (w *c24World) Apply(ev int) (string, []xstate.Violation) {
 	var viol []xstate.Violation
 	unauth := 0
 	var needDesc []string
+	mixed := false // the request names cluster-level and other resources side by side
+	for _, n := range needs {
+		mixed = mixed || n.Kind != "cluster"
+	}
 	for _, n := range needs {
 		ok := n.Atom != "" && w.cfg.has(n.Atom)
 		needDesc = append(needDesc, fmt.Sprintf("%s:%s=%v", n.Kind, n.Name, ok))
@@ -935,10 +1184,13 @@ func (w *c24World) Apply(ev int) (string, []xstate.Violation) {
 		default:
 			found := false
 			for _, e := range entries {
-				if e.Kind != n.Kind && !(n.Kind == "cluster") {
-					continue
-				}
-				if n.Kind != "cluster" && e.Name != n.Name {
+				if n.Kind == "cluster" {
+					// a cluster-level request: every reply entry; a request that mixes
+					// cluster-level and topic resources: the cluster-level entries
+					if mixed && e.Kind != "cluster" {
+						continue
+					}
+				} else if e.Kind != n.Kind || e.Name != n.Name {
 					continue
 				}
 				found = true
@@ -1073,11 +1325,18 @@ func c24Pop(m uint) int {
 func TestVerifC24(t *testing.T) {
 	rep := vh.New(t, "C24")
 	defer rep.Finish()
-	rep.Rule = "case = one request sent as principal alice through the real handler.Handle in a world (alice's permission set, auto-create, topic t / group g existing or not, identity via client.id or via connection principal with a privileged decoy client.id), alone or after a history of earlier requests (BFS over histories, states merged by canonical broker snapshot), judged by comparing full broker snapshots before/after and decoding the reply; signature = (world, request, which needed permissions are held, reply codes and record bytes, categories of state that changed); non-trivial = alice lacks at least one permission the request needs (the oracle constrains it)"
+	// every transition builds a fresh world (handler, store, bucket with preallocated logs):
+	// short-lived garbage only, so collect less often (performance only, no effect on results)
+	if os.Getenv("GOGC") == "" {
+		defer debug.SetGCPercent(debug.SetGCPercent(400))
+	}
+	rep.Rule = "case = one request (naming one or several resources: every ordered list of 2, thorough 3, topic names over {existing/non-existent allowed, existing/non-existent forbidden} for Metadata; allowed-before-forbidden and forbidden-before-allowed pairs for the other list-taking requests) sent as principal alice through the real handler.Handle in a world (alice's permission set, auto-create, topic t / group g existing or not, identity via client.id or via connection principal with a privileged decoy client.id), alone or after a history of earlier requests (BFS over histories, states merged by canonical broker snapshot), judged by comparing full broker snapshots before/after and decoding the reply; signature = (world, request, which needed permissions are held, reply codes and record bytes, categories of state that changed); non-trivial = alice lacks at least one permission the request needs (the oracle constrains it)"
 	rep.Assumptions = []string{
 		"required permission per request type as the broker's allow* calls intend: produce->produce on topic; fetch/list-offsets/offset-for-leader-epoch/describe topic config->fetch on topic; join/sync/heartbeat/leave/offset-commit->group_write; offset-fetch/describe-groups->group_read (list-groups: on all groups); delete-groups->group_admin; alter-configs/create-partitions/create-topics/delete-topics/describe broker config->cluster admin; api-versions/find-coordinator/metadata->none",
 		"Metadata: creating a missing topic is only flagged when alice holds no permission through which she could have created it anyway (admin, or produce/fetch on it - both auto-create)",
 		"acks=0 produce has no reply: only the absence of any write is demanded",
+		"the atoms produce:t / fetch:t grant the action on topic t and on topic s (s never exists initially), so that one request can name an existing and a non-existent permitted topic next to an existing (u) and a non-existent (n) forbidden one",
+		"a request naming several resources is judged resource by resource: each resource alice lacks the permission for must be untouched and answered with an authorization error, whatever else the request names (ListOffsets/OffsetForLeaderEpoch refusing the whole list is accepted)",
 		"'leaks nothing' is checked as the statement words it: no record bytes and an authorization error code in every reply entry of the unauthorized resource",
 		"in-memory metadata store and fake S3 bucket stand for etcd and S3; states are merged on the observable snapshot plus the set of open partition logs (deny-log rate limiter state is ignored)",
 	}
@@ -1114,8 +1373,13 @@ func TestVerifC24(t *testing.T) {
 	specs := c24Requests()
 	var names []string
 	for _, s := range specs {
+		if c24ThoroughOnly(s) && !vh.Thorough() {
+			continue
+		}
 		names = append(names, s.Name)
 	}
+	rep.SetInfo("topic_name_alphabet", "t (covered by produce:t/fetch:t; exists or not per world), s (covered by the same atoms; never exists initially), u (exists; never permitted), n (never exists; never permitted)")
+	rep.SetInfo("metadata_topic_list_lengths", map[bool][]int{false: {0, 1, 2}, true: {0, 1, 2, 3}}[vh.Thorough()])
 	rep.SetInfo("worlds", len(worlds))
 	rep.SetInfo("permission_atoms", c24Atoms)
 	rep.SetInfo("request_variants", names)
